@@ -203,6 +203,9 @@ func (s *Solver) Assert(tt *TermTable, t *Term) {
 func (s *Solver) Check(tt *TermTable, extra *Term, wantModel bool, vars []*Term) (Result, Model) {
 	start := time.Now()
 	defer func() { s.Time += time.Since(start); s.Queries++ }()
+	for _, v := range vars {
+		s.define(tt, v)
+	}
 	if extra != nil {
 		s.define(tt, extra) // definitions outside the inner push so they persist on the path
 		s.send("(push 1)")
